@@ -477,7 +477,8 @@ static void marshal_one(MarshalState *st, Janet x, int flags) {
             return;
         case JANET_NUMBER: {
             double xval = janet_unwrap_number(x);
-            if (janet_checkintrange(xval)) {
+            /* -0.0 is in integer range but is not the integer 0 */
+            if (janet_checkintrange(xval) && !(xval == 0 && signbit(xval))) {
                 pushint(st, (int32_t) xval);
                 return;
             }
